@@ -18,8 +18,8 @@ def chunkLoop (s : List α) (size : Int) : Nat → Int → Option (List (List α
   | 0, _ => some []
   | k + 1, i =>
     let start := xsChunkStart i size
-    let e := xsChunkEnd i size
-    let e := if xsChunkClamp e s.length then (s.length : Int) else e
+    let e := xsChunkEndLast s.length
+    let e := if xsChunkFull s.length start size then xsChunkEnd start size else e
     match slice s start e, chunkLoop s size k (i + 1) with
     | some c, some r => some (c :: r)
     | _, _ => none
@@ -28,7 +28,7 @@ def chunkLoop (s : List α) (size : Int) : Nat → Int → Option (List (List α
 def chunk (s : List α) (size : Int) : Option (List (List α)) :=
   if xsChunkPanics size then none
   else
-    let cnt := xsChunkCount s.length size
+    let cnt := xsChunkMake (if xsChunkNonEmpty s.length then xsChunkCount s.length size else xsChunkCount0)
     if cnt < 0 then none else chunkLoop s size cnt.toNat 0
 
 /-- the `for i := 1; i < len(s); i++` loop of `xslices.Runs`; `none` = index/slice panic -/
